@@ -22,6 +22,12 @@ HEAD_PROTOS = ["http", "https", "wap"]
 BPROTO = {"gopher": "PGopher", "sgopher": "PGopher", "gopherplus": "PGopherPlus", "sgopherplus": "PGopherPlus",
           "http": "(PHttp GET)", "https": "(PHttp GET)", "gemini": "PGemini", "spartan": "PSpartan"}
 
+DECOMP_PATT = r"\.txt\.(bz2|gz|Z)$"          # the restrictive example of the shipped configuration file
+PATT_CONFIG = dict(FULL_CONFIG)
+PATT_CONFIG["handlers.file.CompressedFileHandler"] = dict(FULL_CONFIG["handlers.file.CompressedFileHandler"],
+                                                          decompresspatt=DECOMP_PATT)
+NAMED_CONFIGS = {"default": None, "full": FULL_CONFIG, "fullpatt": PATT_CONFIG, "live": None}
+
 WML_HEAD = ('<?xml version="1.0"?>\n<!DOCTYPE wml PUBLIC "-//WAPFORUM//DTD WML 1.1//EN"\n'
             '"http://www.wapforum.org/DTD/wml_1.1.xml">\n<wml>\n'
             '<card id="index" title="Text File" newcontext="true">\n<p>\n')
@@ -385,9 +391,11 @@ def run(tier):
     big = blk * BIG_REPS + blk[:BIG_TAIL]
     plain_gz = text_of_size(rng, 5000)
     plain_bin = rand_bytes(rng, 4097)
+    plain_tar = rand_bytes(rng, 3000)
     special = [
         ("z/c.txt.gz", gzip.compress(plain_gz, mtime=0), ("gz", plain_gz)),
         ("z/b.bin.gz", gzip.compress(plain_bin, mtime=0), ("gz", plain_bin)),
+        ("z/backup.tar.gz", gzip.compress(plain_tar, mtime=0), ("gz", plain_tar)),
         ("z/t.html.tal", b'<html><body tal:content="selector">x</body></html>\n', ("tal", None)),
         ("z/u.txt.tal", b'line <b tal:replace="selector">x</b>\n', ("tal", None)),
     ]
@@ -408,7 +416,7 @@ def run(tier):
             out.append((proto, "HEAD", data.replace(b"GET ", b"HEAD ", 1), tls))
         return out
 
-    plan = {"default": [], "full": [], "live": []}       # (path, data, special, proto, method, request bytes, tls)
+    plan = {"default": [], "full": [], "fullpatt": [], "live": []}   # (path, data, special, proto, method, request bytes, tls)
     for p, d in files:
         for q in reqs_for(p, GET_PROTOS, HEAD_PROTOS):
             plan["default"].append((p, d, None) + q)
@@ -427,6 +435,11 @@ def run(tier):
         # without the transforming handlers the same files are plain stored files
         for q in reqs_for(p, ["gopherplus", "http", "gemini"], []):
             plan["default"].append((p, d, None) + q)
+        # with a decompression pattern that declines some encoded files: the declined ones are plain stored
+        # files too (their own bytes, application/octet-stream, exact length)
+        applies = sp[0] == "tal" or re.search(DECOMP_PATT, sel_of(p)) is not None
+        for q in reqs_for(p, GET_PROTOS, HEAD_PROTOS):
+            plan["fullpatt"].append((p, d, sp if applies else None) + q)
 
     # the real ThreadingTCPServer on a socket, TLS requests through a real TLS client: what the
     # in-process transport cannot show (anything that depends on the descriptor under a TLS stream)
@@ -437,12 +450,13 @@ def run(tier):
             plan["live"].append((p, d, None) + q)
     for q in reqs_for("big/big.bin", ["sgopher", "sgopherplus", "https", "gemini"], []):
         plan["live"].append(("big/big.bin", big, None) + q)
-    CONFIGS = (("default", None, "c04_world"), ("full", FULL_CONFIG, "c04_world"), ("live", None, "c04_live"))
+    CONFIGS = (("default", None, "c04_world"), ("full", FULL_CONFIG, "c04_world"), ("fullpatt", PATT_CONFIG, "c04_world"),
+               ("live", None, "c04_live"))
     jobs = []
     for cfgname, cfg, op in CONFIGS:
         jobs.append({"op": op, "tree": tree, "config": cfg,
                      "requests": [{"data": gen.lat(x[5]), "tls": x[6]} for x in plan[cfgname]]})
-    wres = impl_run_parallel(jobs, chunks=3)
+    wres = impl_run_parallel(jobs, chunks=len(jobs))
     for r in wres:
         if not r["ok"]:
             raise RuntimeError(r["err"] + "\n" + r.get("tb", ""))
@@ -494,7 +508,7 @@ def run(tier):
     n_or = 0
     hits = {}
     for r in records:
-        sp = r["special"] if r["cfg"] == "full" else None
+        sp = r["special"]
         parsed = split_response(r["proto"], r["out"])
         key = (r["cfg"], r["path"], r["proto"])
         n_or += 1
@@ -582,7 +596,7 @@ def run(tier):
         byfile.setdefault((r["cfg"], r["path"]), []).append(r)
 
     def hkind(r, tag):
-        sp = r["special"] if r["cfg"] == "full" else None
+        sp = r["special"]
         if sp is None:
             return "HFile"
         if sp[0] == "gz":
@@ -597,7 +611,7 @@ def run(tier):
         cfgname, path = key
         tag = f"f{fi}"
         r0 = recs[0]
-        sp = r0["special"] if cfgname == "full" else None
+        sp = r0["special"]
         defs = [coq_def(f"d_{tag}", r0["data"])]
         weight = len(r0["data"])
         if sp and sp[0] == "gz":
@@ -645,7 +659,7 @@ def run(tier):
         parts.append((key[0],) + file_part(fi, key, recs))
     bundles = []
     bundle_recs = []
-    for cfgname in ("default", "full", "live"):
+    for cfgname in ("default", "full", "fullpatt", "live"):
         cur = None
         for c, defs, weight, groups in sorted([p for p in parts if p[0] == cfgname], key=lambda p: -p[2]):
             if cur is None or cur["w"] + weight > 70000:
@@ -658,7 +672,7 @@ def run(tier):
     jobs_k = []
     for bi, (cfgname, cur) in enumerate(bundles):
         gs = [g for g in ("doc", "wapt", "wapr") if cur["groups"][g]]
-        jobs_k.append({"name": f"k_e2e_{bi}", "imports": IMPORTS, "local_modules": ["C04T_full" if cfgname == "full" else "C04T_default"],
+        jobs_k.append({"name": f"k_e2e_{bi}", "imports": IMPORTS, "local_modules": ["C04T_full" if cfgname in ("full", "fullpatt") else "C04T_default"],
                        "pre": "".join(cur["defs"]), "evals": [(CHK[g], [c for c, _ in cur["groups"][g]]) for g in gs]})
         bundle_recs.append([[r for _, r in cur["groups"][g]] for g in gs] + [gs])
     bigpre = coq_def("blk", blk) + "Definition d_big : list N := big_doc blk %d %d.\n" % (BIG_REPS, BIG_TAIL)
@@ -738,7 +752,7 @@ def replay(path):
     if rep.get("kind") != "doc" or "tree" not in rep.get("world", {}):
         print("replay: not a replayable document case (see the file for the input)")
         return 2
-    cfg = FULL_CONFIG if rep["world"]["config"] == "full" else None
+    cfg = NAMED_CONFIGS.get(rep["world"]["config"])
     res = impl_run([{"op": "c04_live" if rep["world"]["config"] == "live" else "c04_world", "tree": rep["world"]["tree"], "config": cfg,
                      "requests": [{"data": rep["request_latin1"], "tls": rep["tls"]}]}])
     if not res[0]["ok"]:
